@@ -3,10 +3,11 @@ CONSTANTS
   MaxEvents = 3
   Faithful = TRUE
   Macro = TRUE
+  EnvAts = {1, 2, 3}
   EnvFaults = {"401", "500"}
   BodyFaults = {"gzip", "gziptrunc", "zstd"}
   ParseFaults = {"garbage", "truncated", "ctype"}
-INVARIANTS TypeOK ErrorMeansNoEffects SuccessMeansAllTried PerEventExact NoListElsewhere ExactlyOneStatus EffectsAreTheEvents FaultFreeSucceeds FaultMeansError
+INVARIANTS TypeOK ErrorMeansNoEffects SuccessMeansAllTried PerEventExact NoListElsewhere ExactlyOneStatus EffectsAreTheEvents FaultFreeSucceeds FaultMeansError BatchesInOrder
 PROPERTIES NothingAfterAnswer StatusStable
 ACTION_CONSTRAINT Dump
 VIEW View
